@@ -48,6 +48,9 @@ CLAIMED["C20"] = ("exploration", "crossed enumeration of pattern-length pairs x 
 CLAIMED["C13"] = ("exploration", "deviation-bounded exhaustive enumeration of a rich model family (base model + every single deviation, named element x control pairs, thorough: all compatible pairs) and all example networks; four round-trip paths compared as JSON-normalised dictionaries",
     "every model of the family is converted with to_dict, re-created through from_dict / write_json+read_json / from_dict(append=empty) and a second trip, and the normalised dictionaries must be equal key by key (the first differing path is reported)",
     "attributes the catalogue does not set away from their defaults are only covered at their defaults")
+CLAIMED["C12"] = ("exploration", "deviation-bounded exhaustive enumeration of the model family (every single deviation + named pairs; thorough all compatible pairs) crossed with all ten INP flow units and both INP versions; two write/read cycles per case compared attribute by attribute and as text",
+    "every model x unit system x version of the bound is written with write_inpfile and read back; elements, connectivity, attributes, patterns, curves, demands, sources, options, tags, vertices, controls and rules are compared keyed by name within the precision of the written tokens; the second cycle must be a fixpoint (model and text)",
+    "tolerance 1e-5 relative + field quanta (see assumptions in the evidence file); WNTR-only settings listed in the statement are not compared")
 NOT_YET = "check not built yet in this session (work in progress, see DESIGN.md section 4)"
 
 
